@@ -1,704 +1,46 @@
-import LibInj.Proofs.TokenizeOK
+import LibInj.Proofs.FoldLoop
 set_option linter.unusedSimpArgs false
 set_option linter.unusedVariables false
-/-! Safety of `fold`: no index, slice, token-vector or negative-length error (C01). -/
+/-! Safety and termination of `fold` (C01): no index, slice, token-vector or negative-length error,
+and the fuel of every loop suffices. Parts: `FoldBase` (token facts, invariants), `FoldRel` (measure,
+window relation), `FoldFetch`, `FoldRules` (two- and three-token rules), `FoldLoop`. -/
 namespace LibInj.Sqli
 open LibInj
 
-/-- what `fold`'s accesses need from a token in the window -/
-def TokF (t : Token) : Prop := TokInv t ∧ CatOK t
-
-theorem tokF_default : TokF ({} : Token) :=
-  ⟨⟨rfl, by simp⟩, ⟨Or.inl rfl, (fun h => absurd h (by decide)), (fun h => absurd h (by decide))⟩⟩
-
-/-- re-categorising a token keeps it usable as long as the new class fits its length -/
-theorem TokF.recat {t : Token} (h : TokF t) (c : UInt8) (hc : CatV c t.len) : TokF { t with cat := c } :=
-  ⟨h.1, hc⟩
-
-theorem isUnaryOp_ok (t : Token) (h : TokF t) : ∃ b, t.isUnaryOp = .ok b := by
-  obtain ⟨⟨hv, hl⟩, _⟩ := h
-  unfold Token.isUnaryOp
-  by_cases hc : (t.cat != 111) = true
-  · simp [hc, pure, Except.pure]
-  · simp only [hc, Bool.false_eq_true, ↓reduceIte, bind, Except.bind, pure, Except.pure]
-    split
-    · rename_i h1
-      simp only [at'_ok (show 0 < t.val.length by omega)]
-      exact ⟨_, rfl⟩
-    · rename_i h2
-      simp only [andM, toBool, byteIs, at'_ok (show 0 < t.val.length by omega), at'_ok (show 1 < t.val.length by omega),
-        bind, Except.bind, pure, Except.pure]
-      split <;> exact ⟨_, rfl⟩
-    · rename_i h3
-      simp only [slice_ok t.val 0 3 (by omega) (by omega)]
-      exact ⟨_, rfl⟩
-    · exact ⟨_, rfl⟩
-
-theorem isArithmeticOp_ok (t : Token) (h : TokF t) : ∃ b, t.isArithmeticOp = .ok b := by
-  obtain ⟨⟨hv, hl⟩, _⟩ := h
-  unfold Token.isArithmeticOp
-  by_cases hc : (t.cat == 111 && t.len == 1) = true
-  · have h1 : t.len = 1 := by simp only [Bool.and_eq_true, beq_iff_eq] at hc; exact hc.2
-    simp only [hc, ↓reduceIte, at'_ok (show 0 < t.val.length by omega), bind, Except.bind, pure, Except.pure]
-    exact ⟨_, rfl⟩
-  · simp only [hc, Bool.false_eq_true, ↓reduceIte, pure, Except.pure]
-    exact ⟨_, rfl⟩
-
-theorem valOf_ok (t : Token) (h : TokF t) : valOf t = .ok t.val := by
-  obtain ⟨⟨hv, hl⟩, _⟩ := h
-  unfold valOf
-  rw [slice_ok t.val 0 t.len (by omega) (by omega)]
-  simp [← hv]
-
-theorem merge_ok (a b : Token) (ha : TokF a) (hb : TokF b) :
-    ∃ r, merge a b = .ok r ∧ ∀ a', r = some a' → TokF a' := by
-  obtain ⟨⟨hva, hla⟩, _⟩ := ha
-  obtain ⟨⟨hvb, hlb⟩, _⟩ := hb
-  unfold merge
-  simp only [bind, Except.bind, pure, Except.pure]
-  split
-  · exact ⟨none, rfl, fun a' h => by cases h⟩
-  · split
-    · exact ⟨none, rfl, fun a' h => by cases h⟩
-    · split
-      · exact ⟨none, rfl, fun a' h => by cases h⟩
-      · rename_i hsz
-        simp only [slice_ok a.val 0 a.len (by omega) (by omega), slice_ok b.val 0 b.len (by omega) (by omega)]
-        split
-        · rename_i hch
-          have hcl := clip_le (((a.val.drop 0).take (a.len - 0) ++ [32] ++ (b.val.drop 0).take (b.len - 0)).length)
-          rw [assign_ok _ _ _ _ _ hcl]
-          refine ⟨_, rfl, fun a' h => ?_⟩
-          cases h
-          generalize htmp : (a.val.drop 0).take (a.len - 0) ++ [32] ++ (b.val.drop 0).take (b.len - 0) = tmp at hch hcl ⊢
-          refine ⟨⟨by simp [List.length_take]; omega, clip_le_31 _⟩, ?_⟩
-          rcases searchKeyword_cases tmp with h0 | ⟨hc1, hc2, hc3⟩
-          · rw [h0] at hch; simp at hch
-          · exact ⟨Or.inr hc1, (fun h => clip_two (hc2 h)), (fun _ => clip_pos hc3)⟩
-        · exact ⟨none, rfl, fun a' h => by cases h⟩
-
-end LibInj.Sqli
-
-namespace LibInj.Sqli
-open LibInj
-
-/-- invariant of the scanner state inside `fold` -/
-def SInv (s : State) : Prop :=
-  s.tv.length = 8 ∧ s.pos ≤ s.input.length ∧ ∀ t ∈ s.tv, TokF t
-
-/-- invariant of the loop variables of `fold` -/
-def FInv (f : FS) : Prop := SInv f.s ∧ f.left ≤ f.pos ∧ f.pos ≤ 6 ∧ TokF f.lastComment
-
-theorem tvGet_ok (s : State) (hs : SInv s) (i : Nat) (hi : i < 8) : ∃ t, tvGet s i = .ok t ∧ TokF t := by
-  unfold tvGet
-  have hlt : i < s.tv.length := by rw [hs.1]; exact hi
-  rw [List.getElem?_eq_getElem hlt]
-  exact ⟨_, rfl, hs.2.2 _ (List.getElem_mem hlt)⟩
-
-theorem tvSet_inv (s : State) (hs : SInv s) (i : Nat) (hi : i < 8) (t : Token) (ht : TokF t) :
-    ∃ s', tvSet s i t = .ok s' ∧ SInv s' ∧ s'.input = s.input ∧ s'.pos = s.pos ∧ s'.flags = s.flags := by
-  have hlt : i < s.tv.length := by rw [hs.1]; exact hi
-  rw [tvSet_ok s i t hlt]
-  refine ⟨_, rfl, ⟨by simp; exact hs.1, hs.2.1, ?_⟩, rfl, rfl, rfl⟩
-  intro x hx
-  rcases List.mem_or_eq_of_mem_set hx with h | h
-  · exact hs.2.2 x h
-  · rw [h]; exact ht
-
-theorem special5_ok (s : State) (hs : SInv s) : ∃ b, special5 s = .ok b := by
-  unfold special5
-  obtain ⟨t0, h0, _⟩ := tvGet_ok s hs 0 (by omega)
-  obtain ⟨t1, h1, _⟩ := tvGet_ok s hs 1 (by omega)
-  obtain ⟨t2, h2, _⟩ := tvGet_ok s hs 2 (by omega)
-  obtain ⟨t3, h3, _⟩ := tvGet_ok s hs 3 (by omega)
-  obtain ⟨t4, h4, _⟩ := tvGet_ok s hs 4 (by omega)
-  simp only [h0, h1, h2, h3, h4, bind, Except.bind, pure, Except.pure]
-  exact ⟨_, rfl⟩
-
-theorem foldSpecial_ok (f : FS) (hf : FInv f) :
-    ∃ f', foldSpecial f = .ok f' ∧ FInv f' ∧ f'.s.input = f.s.input ∧ f'.more = f.more := by
-  obtain ⟨hs, hlp, hp6, hlc⟩ := hf
-  unfold foldSpecial
-  by_cases hp : f.pos ≥ maxTokens
-  · obtain ⟨b, hb⟩ := special5_ok f.s hs
-    simp only [hp, ↓reduceIte, hb, bind, Except.bind, pure, Except.pure]
-    cases b with
-    | true =>
-      simp only [↓reduceIte]
-      by_cases hp' : f.pos > maxTokens
-      · obtain ⟨t5, h5, ht5⟩ := tvGet_ok f.s hs 5 (by omega)
-        obtain ⟨s', hs', hinv', hi', hp'', _⟩ := tvSet_inv f.s hs 1 (by omega) t5 ht5
-        simp only [hp', ↓reduceIte, h5, hs']
-        exact ⟨_, rfl, ⟨hinv', by simp, by simp, hlc⟩, hi', rfl⟩
-      · simp only [hp', ↓reduceIte]
-        exact ⟨_, rfl, ⟨hs, by simp, by simp, hlc⟩, rfl, rfl⟩
-    | false =>
-      simp only [Bool.false_eq_true, ↓reduceIte]
-      exact ⟨_, rfl, ⟨hs, hlp, hp6, hlc⟩, rfl, rfl⟩
-  · simp only [hp, ↓reduceIte, pure, Except.pure]
-    exact ⟨_, rfl, ⟨hs, hlp, hp6, hlc⟩, rfl, rfl⟩
-
-/-- the token-fetching loop: total (given enough fuel), keeps the invariant, never lowers `pos`,
-keeps `left` -/
-theorem fetch_ok (k : Nat) (fuel : Nat) : ∀ (f : FS), FInv f → f.s.input.length - f.s.pos + 1 < fuel →
-    ∃ f', fetch f k fuel = .ok f' ∧ FInv f' ∧ f'.left = f.left ∧ f.pos ≤ f'.pos ∧ f'.s.input = f.s.input := by
-  induction fuel with
-  | zero => intro f _ hf; omega
-  | succ fuel ih =>
-    intro f hf hfu
-    obtain ⟨hs, hlp, hp6, hlc⟩ := hf
-    unfold fetch
-    by_cases hc : (f.more && decide (f.pos ≤ maxTokens) && decide (f.pos - f.left < k)) = true
-    · have hp5 : f.pos ≤ 5 := by
-        simp only [Bool.and_eq_true, decide_eq_true_eq] at hc; exact hc.1.2
-      have hcur : ({ f.s with cur := f.pos } : State).cur < ({ f.s with cur := f.pos } : State).tv.length := by
-        show f.pos < f.s.tv.length
-        rw [hs.1]; omega
-      obtain ⟨more, s', hr, q1, q2, q3, q4, q5, q6, q7, q8, q9, q10⟩ := tokenize_ok { f.s with cur := f.pos } hs.2.1 hcur
-      simp only at q1 q2 q3 q4 q5 q6 q7 q8 q9 q10
-      -- the scanner state after the call keeps the invariant
-      have hs' : SInv s' := by
-        refine ⟨by rw [q4]; exact hs.1, by rw [q1]; exact q6, ?_⟩
-        intro t ht
-        obtain ⟨j, hj, hjt⟩ := List.mem_iff_getElem.mp ht
-        have hget : s'.tv[j]? = some t := by rw [List.getElem?_eq_getElem hj, hjt]
-        by_cases hjc : j = f.pos
-        · rw [hjc] at hget
-          rcases q10 t hget with h | h
-          · exact h
-          · exact hs.2.2 t (List.mem_of_getElem? h)
-        · rw [q7 j hjc] at hget
-          exact hs.2.2 t (List.mem_of_getElem? hget)
-      simp only [hc, ↓reduceIte, hr, bind, Except.bind, pure, Except.pure]
-      cases more with
-      | false =>
-        simp only [Bool.false_eq_true, ↓reduceIte]
-        -- `more` is now false: the loop condition fails at the next round
-        cases fuel with
-        | zero => omega
-        | succ fuel' =>
-          unfold fetch
-          simp only [Bool.false_and, Bool.false_eq_true, ↓reduceIte, pure, Except.pure]
-          exact ⟨_, rfl, ⟨hs', hlp, hp6, hlc⟩, rfl, Nat.le_refl _, q1⟩
-      | true =>
-        obtain ⟨hadv, t', ht', htc, ⟨ti, _, _, _, tcat⟩⟩ := q8 rfl
-        have hget : tvGet s' s'.cur = .ok t' := by
-          unfold tvGet; rw [q3]; show (match s'.tv[f.pos]? with | some t => Except.ok t | none => Except.error Err.tv) = _; rw [ht']
-        simp only [↓reduceIte, hget]
-        have hfuel : s'.input.length - s'.pos + 1 < fuel := by
-          rw [q1]
-          show f.s.input.length - s'.pos + 1 < fuel
-          have : f.s.pos < s'.pos := hadv
-          omega
-        split
-        · obtain ⟨f', hf', hi', hl', hp', hin'⟩ := ih { f with s := s', more := true, lastComment := t' }
-            ⟨hs', hlp, hp6, ⟨ti, tcat⟩⟩ hfuel
-          exact ⟨f', hf', hi', hl', hp', by rw [hin']; exact q1⟩
-        · obtain ⟨f', hf', hi', hl', hp', hin'⟩ := ih
-            { f with s := s', more := true, lastComment := { f.lastComment with cat := 0 }, pos := f.pos + 1 }
-            ⟨hs', by simp; omega, by simp; omega,
-              hlc.recat 0 ⟨Or.inl rfl, (fun h => absurd h (by decide)), (fun h => absurd h (by decide))⟩⟩ hfuel
-          exact ⟨f', hf', hi', hl', by simp at hp'; omega, by rw [hin']; exact q1⟩
-    · simp only [hc, Bool.false_eq_true, ↓reduceIte, pure, Except.pure]
-      exact ⟨f, rfl, ⟨hs, hlp, hp6, hlc⟩, rfl, Nat.le_refl _, rfl⟩
-
-end LibInj.Sqli
-
-namespace LibInj.Sqli
-open LibInj
-
-theorem dec_ok (f : FS) (k : Nat) (hk : k ≤ f.pos) : f.dec k = .ok { f with pos := f.pos - k } := by
-  simp [FS.dec, sub, hk, bind, Except.bind, pure, Except.pure]
-
-/-- an iteration outcome that keeps the invariant and the input -/
-def StepOK (input : Bytes) : Step → Prop
-  | .cont f' => FInv f' ∧ f'.s.input = input
-  | .brk f' => FInv f' ∧ f'.s.input = input
-  | .ret n f' => FInv f' ∧ f'.s.input = input ∧ n ≤ 7
-
-def TwoOK (f : FS) : Two → Prop
-  | .done st => StepOK f.s.input st
-  | .next f' => FInv f' ∧ f'.s.input = f.s.input ∧ f'.pos = f.pos ∧ f'.left ≤ f.left ∧ f'.more = f.more ∧ f'.s.pos = f.s.pos
-
-/-- rebuilding the loop variables around an unchanged scanner state -/
-theorem finv_vars (f : FS) (hf : FInv f) (p l folds : Nat) (hl : l ≤ p) (hp : p ≤ 6) :
-    FInv { f with pos := p, left := l, s := { f.s with folds := folds } } :=
-  ⟨⟨hf.1.1, hf.1.2.1, hf.1.2.2⟩, hl, hp, hf.2.2.2⟩
-
-theorem finv_state (f : FS) (hf : FInv f) (s' : State) (hs' : SInv s') (p l folds : Nat) (hl : l ≤ p) (hp : p ≤ 6) :
-    FInv { f with pos := p, left := l, s := { s' with folds := folds } } :=
-  ⟨⟨hs'.1, hs'.2.1, hs'.2.2⟩, hl, hp, hf.2.2.2⟩
-
-/-- a value whose upper-case image has at least `n` bytes has at least `n` bytes -/
-theorem len_of_upper_eq (v lit : Bytes) (h : toUpperCmp lit v = true) : lit.length ≤ v.length := by
-  unfold toUpperCmp at h
-  have : lit = goUpper v := by simpa using h
-  rw [this]
-  exact goUpper_length_le _ v (Nat.le_refl _)
-
-theorem funcNames_len (v : Bytes) (h : funcNames.any (fun n => toUpperCmp n v) = true) : 2 ≤ v.length := by
-  simp only [List.any_eq_true] at h
-  obtain ⟨n, hn, hcmp⟩ := h
-  have hl := len_of_upper_eq v n hcmp
-  have : 4 ≤ n.length := by
-    simp only [funcNames, List.mem_cons, List.mem_nil_iff, or_false] at hn
-    rcases hn with rfl | rfl | rfl | rfl | rfl | rfl | rfl | rfl | rfl | rfl | rfl <;> decide +kernel
-  omega
-
-end LibInj.Sqli
-
-namespace LibInj.Sqli
-open LibInj
-
-theorem catV_lit (c : UInt8) (len : Nat) (h : CatLit c) : CatV c len := catLit_ok h
-
-theorem like_len (v : Bytes) (h : (toUpperCmp (bs "LIKE") v || toUpperCmp (bs "NOT LIKE") v) = true) : 2 ≤ v.length := by
-  rcases Bool.or_eq_true _ _ ▸ h with h | h
-  · have := len_of_upper_eq v _ h
-    have e : (bs "LIKE").length = 4 := by decide +kernel
-    omega
-  · have := len_of_upper_eq v _ h
-    have e : (bs "NOT LIKE").length = 8 := by decide +kernel
-    omega
-
-theorem isIfToken_ok (a b : Token) (hb : TokF b) : ∃ v, isIfToken a b = .ok v := by
-  unfold isIfToken
-  by_cases cIF : (a.cat == 59 && b.cat == 102) = true
-  · have hb102 : b.cat = 102 := by simp only [Bool.and_eq_true, beq_iff_eq] at cIF; exact cIF.2
-    have hl2 : 2 ≤ b.val.length := by rw [hb.1.1]; exact hb.2.2.1 hb102
-    simp only [cIF, ↓reduceIte, at'_ok (show 0 < b.val.length by omega), at'_ok (show 1 < b.val.length by omega),
-      bind, Except.bind, pure, Except.pure]
-    split <;> exact ⟨_, rfl⟩
-  · simp only [cIF, Bool.false_eq_true, ↓reduceIte, pure, Except.pure]
-    exact ⟨_, rfl⟩
-
-theorem sinv_folds (s : State) (hs : SInv s) (k : Nat) : SInv { s with folds := k } := ⟨hs.1, hs.2.1, hs.2.2⟩
-
-/-- store a token and rebuild the loop variables -/
-theorem set_vars (f : FS) (hf : FInv f) (i : Nat) (t : Token) (hi : i < 8) (ht : TokF t) :
-    ∃ s', tvSet f.s i t = .ok s' ∧ SInv s' ∧ s'.input = f.s.input ∧ s'.pos = f.s.pos ∧
-      ∀ (p l : Nat), l ≤ p → p ≤ 6 →
-        FInv { s := s', pos := p, left := l, more := f.more, lastComment := f.lastComment } ∧
-        ∀ k, FInv { s := { s' with folds := k }, pos := p, left := l, more := f.more, lastComment := f.lastComment } := by
-  obtain ⟨s', h1, h2, h3, h4, _⟩ := tvSet_inv f.s hf.1 i hi t ht
-  exact ⟨s', h1, h2, h3, h4, fun p l hl hp => ⟨⟨h2, hl, hp, hf.2.2.2⟩, fun k => ⟨sinv_folds s' h2 k, hl, hp, hf.2.2.2⟩⟩⟩
-
-set_option maxHeartbeats 1000000 in
-/-- **the two-token stage never errs and keeps the invariant** -/
-theorem foldTwo_ok (f : FS) (hf : FInv f) (h2 : f.left + 2 ≤ f.pos) : ∃ r, foldTwo f = .ok r ∧ TwoOK f r := by
-  have hfull := hf
-  obtain ⟨hs, hlp, hp6, hlc⟩ := hf
-  obtain ⟨a, ha, hta⟩ := tvGet_ok f.s hs f.left (by omega)
-  obtain ⟨b, hb, htb⟩ := tvGet_ok f.s hs (f.left + 1) (by omega)
-  obtain ⟨bu, hbu⟩ := isUnaryOp_ok b htb
-  obtain ⟨mr, hmr, hmok⟩ := merge_ok a b hta htb
-  obtain ⟨ba, hba⟩ := isArithmeticOp_ok b htb
-  obtain ⟨isIF, hIF⟩ := isIfToken_ok a b htb
-  have hva := valOf_ok a hta
-  have d1 := dec_ok f 1 (by omega)
-  have d2 := dec_ok f 2 (by omega)
-  -- shapes of the outcomes
-  have done1 : ∀ l, l ≤ f.pos - 1 → TwoOK f (.done (.cont { ({ f with pos := f.pos - 1 } : FS).folds 1 with left := l })) := by
-    intro l hl
-    exact ⟨finv_vars f hfull (f.pos - 1) l (f.s.folds + 1) hl (by omega), rfl⟩
-  have done1' : TwoOK f (.done (.cont (({ f with pos := f.pos - 1 } : FS).folds 1))) := by
-    exact ⟨finv_vars f hfull (f.pos - 1) f.left (f.s.folds + 1) (by omega) (by omega), rfl⟩
-  have setdone : ∀ (i : Nat) (t : Token), i < 8 → TokF t → ∀ (p l k : Nat), l ≤ p → p ≤ 6 →
-      ∃ s', tvSet f.s i t = .ok s' ∧
-        FInv { f with s := { s' with folds := s'.folds + k }, pos := p, left := l } ∧ s'.input = f.s.input ∧ s'.pos = f.s.pos ∧ SInv s' := by
-    intro i t hi ht p l k hl hp
-    obtain ⟨s', h1, h2', h3, h4, _⟩ := tvSet_inv f.s hs i (by omega) t ht
-    exact ⟨s', h1, ⟨⟨h2'.1, h2'.2.1, h2'.2.2⟩, hl, hp, hlc⟩, h3, h4, h2'⟩
-  unfold foldTwo
-  simp only [ha, hb, hbu, bind, Except.bind]
-  simp only [hmr]
-  simp only [hba]
-  simp only [hva]
-  simp only [hIF]
-  simp only [d1]
-  simp only [d2]
-  simp only [pure, Except.pure]
-  by_cases c1 : (a.cat == 115 && b.cat == 115) = true
-  · rw [if_pos c1]; exact ⟨_, rfl, done1'⟩
-  rw [if_neg c1]
-  by_cases c2 : (a.cat == 59 && b.cat == 59) = true
-  · rw [if_pos c2]; exact ⟨_, rfl, done1'⟩
-  rw [if_neg c2]
-  by_cases c3 : ((a.cat == 111 || a.cat == 38) && (bu || b.cat == 116)) = true
-  · rw [if_pos c3]; exact ⟨_, rfl, done1 0 (by omega)⟩
-  rw [if_neg c3]
-  by_cases c4 : (a.cat == 40 && bu) = true
-  · rw [if_pos c4]
-    refine ⟨_, rfl, ?_⟩
-    show TwoOK f (.done (.cont { ({ f with pos := f.pos - 1 } : FS).folds 1 with left := _ }))
-    apply done1
-    simp only [FS.folds]
-    by_cases h0 : f.left > 0 <;> simp [h0] <;> omega
-  rw [if_neg c4]
-  -- merge
-  cases mr with
-  | some a' =>
-    simp only []
-    obtain ⟨s', h1, _, h3, h4, hsi⟩ := setdone f.left a' (by omega) (hmok a' rfl) 0 0 0 (by omega) (by omega)
-    simp only [h1, dec_ok { f with s := s' } 1 (by show 1 ≤ f.pos; omega)]
-    refine ⟨_, rfl, ?_⟩
-    refine ⟨⟨⟨hsi.1, hsi.2.1, hsi.2.2⟩, ?_, by show f.pos - 1 ≤ 6; omega, hlc⟩, h3⟩
-    show (if f.left > 0 then f.left - 1 else f.left) ≤ f.pos - 1
-    by_cases h0 : f.left > 0 <;> simp [h0] <;> omega
-  | none =>
-    simp only []
-    -- a rule that stores token `t` in slot `i` and continues with unchanged loop variables
-    have setcont : ∀ (i : Nat) (t : Token), i < 8 → TokF t →
-        ∃ s', tvSet f.s i t = .ok s' ∧
-          TwoOK f (Two.done (Step.cont { s := s', pos := f.pos, left := f.left, more := f.more, lastComment := f.lastComment })) := by
-      intro i t hi ht
-      obtain ⟨s', h1, _, h3, _, hv⟩ := set_vars f hfull i t hi ht
-      exact ⟨s', h1, (hv f.pos f.left hlp hp6).1, h3⟩
-    have setdrop : ∀ (i : Nat) (t : Token), i < 8 → TokF t →
-        ∃ s', tvSet f.s i t = .ok s' ∧
-          ({ s := s', pos := f.pos, left := f.left, more := f.more, lastComment := f.lastComment } : FS).dec 1 =
-            .ok { s := s', pos := f.pos - 1, left := f.left, more := f.more, lastComment := f.lastComment } ∧
-          TwoOK f (Two.done (Step.cont
-            { s := (({ s := s', pos := f.pos - 1, left := f.left, more := f.more, lastComment := f.lastComment } : FS).folds 1).s,
-              pos := (({ s := s', pos := f.pos - 1, left := f.left, more := f.more, lastComment := f.lastComment } : FS).folds 1).pos,
-              left := 0,
-              more := (({ s := s', pos := f.pos - 1, left := f.left, more := f.more, lastComment := f.lastComment } : FS).folds 1).more,
-              lastComment := (({ s := s', pos := f.pos - 1, left := f.left, more := f.more, lastComment := f.lastComment } : FS).folds 1).lastComment })) := by
-      intro i t hi ht
-      obtain ⟨s', h1, _, h3, _, hv⟩ := set_vars f hfull i t hi ht
-      refine ⟨s', h1, dec_ok _ 1 (by show 1 ≤ f.pos; omega), ?_⟩
-      exact ⟨(hv (f.pos - 1) 0 (by omega) (by omega)).2 _, h3⟩
-    have next_same : TwoOK f (.next f) := ⟨hfull, rfl, rfl, Nat.le_refl _, rfl, rfl⟩
-    by_cases c5 : isIF = true
-    · rw [if_pos c5]
-      obtain ⟨s', h1, h2⟩ := setcont (f.left + 1) { b with cat := 84 } (by omega) (htb.recat 84 (catLit_ok (by decide)))
-      simp only [h1]; exact ⟨_, rfl, h2⟩
-    rw [if_neg c5]
-    by_cases c6 : ((a.cat == 110 || a.cat == 118) && b.cat == 40 && funcNames.any fun n => toUpperCmp n a.val) = true
-    · rw [if_pos c6]
-      have hfn : funcNames.any (fun n => toUpperCmp n a.val) = true := by
-        simp only [Bool.and_eq_true] at c6; exact c6.2
-      have hl := funcNames_len a.val hfn
-      obtain ⟨s', h1, h2⟩ := setcont f.left { a with cat := 102 } (by omega)
-        (hta.recat 102 ⟨Or.inr (by decide), (fun _ => by rw [← hta.1.1]; exact hl), (fun h => absurd h (by decide))⟩)
-      simp only [h1]; exact ⟨_, rfl, h2⟩
-    rw [if_neg c6]
-    by_cases c7 : (a.cat == 107 && (toUpperCmp (bs "IN") a.val || toUpperCmp (bs "NOT IN") a.val)) = true
-    · rw [if_pos c7]
-      obtain ⟨s', h1, h2⟩ := setcont f.left { a with cat := if (b.cat == 40) = true then 111 else 110 } (by omega)
-        (hta.recat _ (by split <;> exact catLit_ok (by decide)))
-      simp only [h1]; exact ⟨_, rfl, h2⟩
-    rw [if_neg c7]
-    by_cases c8 : (a.cat == 111 && (toUpperCmp (bs "LIKE") a.val || toUpperCmp (bs "NOT LIKE") a.val)) = true
-    · rw [if_pos c8]
-      by_cases c8b : (b.cat == 40) = true
-      · rw [if_pos c8b]
-        have hl := like_len a.val (by simp only [Bool.and_eq_true] at c8; exact c8.2)
-        obtain ⟨s', h1, _, h3, h4, hv⟩ := set_vars f hfull f.left { a with cat := 102 } (by omega)
-          (hta.recat 102 ⟨Or.inr (by decide), (fun _ => by rw [← hta.1.1]; exact hl), (fun h => absurd h (by decide))⟩)
-        simp only [h1]
-        exact ⟨_, rfl, (hv f.pos f.left hlp hp6).1, h3, rfl, Nat.le_refl _, rfl, h4⟩
-      · rw [if_neg c8b]
-        exact ⟨_, rfl, next_same⟩
-    rw [if_neg c8]
-    by_cases c9 : (a.cat == 116 && (b.cat == 110 || b.cat == 49 || b.cat == 116 || b.cat == 40 || b.cat == 102 || b.cat == 118 || b.cat == 115)) = true
-    · rw [if_pos c9]
-      obtain ⟨s', h1, h2, h3⟩ := setdrop f.left b (by omega) htb
-      simp only [h1]; simp only [h2]; exact ⟨_, rfl, h3⟩
-    rw [if_neg c9]
-    by_cases c10 : (a.cat == 65 && b.cat == 110) = true
-    · rw [if_pos c10]
-      by_cases c10b : (indexByte b.val 95).isSome = true
-      · rw [if_pos c10b]
-        obtain ⟨s', h1, _, h3, h4, hv⟩ := set_vars f hfull (f.left + 1) { b with cat := 116 } (by omega)
-          (htb.recat 116 (catLit_ok (by decide)))
-        simp only [h1]
-        exact ⟨_, rfl, (hv f.pos 0 (by omega) hp6).1, h3, rfl, Nat.zero_le _, rfl, h4⟩
-      · rw [if_neg c10b]
-        exact ⟨_, rfl, next_same⟩
-    rw [if_neg c10]
-    by_cases c11 : (a.cat == 92) = true
-    · rw [if_pos c11]
-      by_cases c11b : ba = true
-      · rw [if_pos c11b]
-        obtain ⟨s', h1, _, h3, _, hv⟩ := set_vars f hfull f.left { a with cat := 49 } (by omega)
-          (hta.recat 49 (catLit_ok (by decide)))
-        simp only [h1]
-        exact ⟨_, rfl, (hv f.pos 0 (by omega) hp6).1, h3⟩
-      · rw [if_neg c11b]
-        obtain ⟨s', h1, h2, h3⟩ := setdrop f.left b (by omega) htb
-        simp only [h1]; simp only [h2]; exact ⟨_, rfl, h3⟩
-    rw [if_neg c11]
-    by_cases c12 : (a.cat == 40 && b.cat == 40) = true
-    · rw [if_pos c12]; exact ⟨_, rfl, done1 0 (by omega)⟩
-    rw [if_neg c12]
-    by_cases c13 : (a.cat == 41 && b.cat == 41) = true
-    · rw [if_pos c13]; exact ⟨_, rfl, done1 0 (by omega)⟩
-    rw [if_neg c13]
-    by_cases c14 : (a.cat == 123 && b.cat == 110) = true
-    · rw [if_pos c14]
-      by_cases c14b : (b.len == 0) = true
-      · rw [if_pos c14b]
-        obtain ⟨s', h1, _, h3, _, hv⟩ := set_vars f hfull (f.left + 1) { b with cat := 88 } (by omega)
-          (htb.recat 88 (catLit_ok (by decide)))
-        simp only [h1]
-        exact ⟨_, rfl, (hv f.pos f.left hlp hp6).1, h3, by omega⟩
-      · rw [if_neg c14b]
-        refine ⟨_, rfl, ?_⟩
-        exact ⟨finv_vars f hfull (f.pos - 2) 0 (f.s.folds + 2) (by omega) (by omega), rfl⟩
-    rw [if_neg c14]
-    by_cases c15 : (b.cat == 125) = true
-    · rw [if_pos c15]; exact ⟨_, rfl, done1 0 (by omega)⟩
-    rw [if_neg c15]
-    exact ⟨_, rfl, next_same⟩
-
-end LibInj.Sqli
-
-namespace LibInj.Sqli
-open LibInj
-
-set_option maxHeartbeats 1000000 in
-/-- **the three-token stage never errs and keeps the invariant** -/
-theorem foldThree_ok (f : FS) (hf : FInv f) (h3 : f.left + 3 ≤ f.pos) :
-    ∃ st, foldThree f = .ok st ∧ StepOK f.s.input st := by
-  have hfull := hf
-  obtain ⟨hs, hlp, hp6, hlc⟩ := hf
-  obtain ⟨a, ha, hta⟩ := tvGet_ok f.s hs f.left (by omega)
-  obtain ⟨b, hb, htb⟩ := tvGet_ok f.s hs (f.left + 1) (by omega)
-  obtain ⟨c, hc, htc⟩ := tvGet_ok f.s hs (f.left + 2) (by omega)
-  obtain ⟨bu, hbu⟩ := isUnaryOp_ok b htb
-  have hva := valOf_ok a hta
-  have hvb := valOf_ok b htb
-  have d2 := dec_ok f 2 (by omega)
-  have drop2 : StepOK f.s.input (.cont { s := f.s, pos := f.pos - 2, left := 0, more := f.more, lastComment := f.lastComment }) :=
-    ⟨⟨hs, Nat.zero_le _, by show f.pos - 2 ≤ 6; omega, hlc⟩, rfl⟩
-  -- store `c` in the middle slot, drop `k` tokens, restart
-  have setdrop : ∀ (k : Nat), k ≤ f.pos →
-      ∃ s', tvSet f.s (f.left + 1) c = .ok s' ∧
-        ({ s := s', pos := f.pos, left := f.left, more := f.more, lastComment := f.lastComment } : FS).dec k =
-          .ok { s := s', pos := f.pos - k, left := f.left, more := f.more, lastComment := f.lastComment } ∧
-        StepOK f.s.input (.cont { s := s', pos := f.pos - k, left := 0, more := f.more, lastComment := f.lastComment }) := by
-    intro k hk
-    obtain ⟨s', h1, _, hi, _, hv⟩ := set_vars f hfull (f.left + 1) c (by omega) htc
-    exact ⟨s', h1, dec_ok _ k hk, (hv (f.pos - k) 0 (Nat.zero_le _) (by omega)).1, hi⟩
-  unfold foldThree
-  simp only [ha, hb, hc, hbu, bind, Except.bind]
-  simp only [hva]
-  simp only [hvb]
-  simp only [d2]
-  simp only [pure, Except.pure]
-  by_cases c1 : (a.cat == 49 && b.cat == 111 && c.cat == 49) = true
-  · rw [if_pos c1]; exact ⟨_, rfl, drop2⟩
-  rw [if_neg c1]
-  by_cases c2 : (a.cat == 111 && b.cat != 40 && c.cat == 111) = true
-  · rw [if_pos c2]; exact ⟨_, rfl, drop2⟩
-  rw [if_neg c2]
-  by_cases c3 : (a.cat == 38 && c.cat == 38) = true
-  · rw [if_pos c3]; exact ⟨_, rfl, drop2⟩
-  rw [if_neg c3]
-  by_cases c4 : (a.cat == 118 && b.cat == 111 && (c.cat == 118 || c.cat == 49 || c.cat == 110)) = true
-  · rw [if_pos c4]; exact ⟨_, rfl, drop2⟩
-  rw [if_neg c4]
-  by_cases c5 : ((a.cat == 110 || a.cat == 49) && b.cat == 111 && (c.cat == 49 || c.cat == 110)) = true
-  · rw [if_pos c5]; exact ⟨_, rfl, drop2⟩
-  rw [if_neg c5]
-  by_cases c6 : ((a.cat == 110 || a.cat == 49 || a.cat == 118 || a.cat == 115) && b.cat == 111 &&
-      b.val == [58, 58] && c.cat == 116) = true
-  · rw [if_pos c6]
-    exact ⟨_, rfl, finv_vars f hfull (f.pos - 2) 0 (f.s.folds + 2) (Nat.zero_le _) (by omega), rfl⟩
-  rw [if_neg c6]
-  by_cases c7 : ((a.cat == 110 || a.cat == 49 || a.cat == 115 || a.cat == 118) && b.cat == 44 &&
-      (c.cat == 49 || c.cat == 110 || c.cat == 115 || c.cat == 118)) = true
-  · rw [if_pos c7]; exact ⟨_, rfl, drop2⟩
-  rw [if_neg c7]
-  by_cases c8 : ((a.cat == 69 || a.cat == 66 || a.cat == 44) && bu && c.cat == 40) = true
-  · rw [if_pos c8]
-    obtain ⟨s', h1, h2, h3⟩ := setdrop 1 (by omega)
-    simp only [h1]; simp only [h2]; exact ⟨_, rfl, h3⟩
-  rw [if_neg c8]
-  by_cases c9 : ((a.cat == 107 || a.cat == 69 || a.cat == 66) && bu &&
-      (c.cat == 49 || c.cat == 110 || c.cat == 118 || c.cat == 115 || c.cat == 102)) = true
-  · rw [if_pos c9]
-    obtain ⟨s', h1, h2, h3⟩ := setdrop 1 (by omega)
-    simp only [h1]; simp only [h2]; exact ⟨_, rfl, h3⟩
-  rw [if_neg c9]
-  by_cases c10 : (a.cat == 44 && bu && (c.cat == 49 || c.cat == 110 || c.cat == 118 || c.cat == 115)) = true
-  · rw [if_pos c10]
-    obtain ⟨s', h1, h2, h3⟩ := setdrop 3 (by omega)
-    simp only [h1]; simp only [h2]; exact ⟨_, rfl, h3⟩
-  rw [if_neg c10]
-  by_cases c11 : (a.cat == 44 && bu && c.cat == 102) = true
-  · rw [if_pos c11]
-    obtain ⟨s', h1, h2, h3⟩ := setdrop 1 (by omega)
-    simp only [h1]; simp only [h2]; exact ⟨_, rfl, h3⟩
-  rw [if_neg c11]
-  by_cases c12 : (a.cat == 110 && b.cat == 46 && c.cat == 110) = true
-  · rw [if_pos c12]; exact ⟨_, rfl, drop2⟩
-  rw [if_neg c12]
-  by_cases c13 : (a.cat == 69 && b.cat == 46 && c.cat == 110) = true
-  · rw [if_pos c13]
-    obtain ⟨s', h1, h2, h3⟩ := setdrop 1 (by omega)
-    simp only [h1]; simp only [h2]; exact ⟨_, rfl, h3⟩
-  rw [if_neg c13]
-  have hnext : StepOK f.s.input (.cont { s := f.s, pos := f.pos, left := f.left + 1, more := f.more, lastComment := f.lastComment }) :=
-    ⟨⟨hs, by show f.left + 1 ≤ f.pos; omega, hp6, hlc⟩, rfl⟩
-  by_cases c14 : (a.cat == 102 && b.cat == 40 && c.cat != 41) = true
-  · rw [if_pos c14]
-    by_cases c14b : toUpperCmp (bs "USER") a.val = true
-    · rw [if_pos c14b]
-      obtain ⟨s', h1, _, hi, _, hv⟩ := set_vars f hfull f.left { a with cat := 110 } (by omega)
-        (hta.recat 110 (catLit_ok (by decide)))
-      simp only [h1]
-      exact ⟨_, rfl, (hv f.pos (f.left + 1) (by omega) hp6).1, hi⟩
-    · rw [if_neg c14b]
-      exact ⟨_, rfl, hnext⟩
-  rw [if_neg c14]
-  exact ⟨_, rfl, hnext⟩
-
-end LibInj.Sqli
-
-namespace LibInj.Sqli
-open LibInj
-
-theorem fetch_fuel_ok (f : FS) : f.s.input.length - f.s.pos + 1 < fetchFuel f.s.input.length := by
-  unfold fetchFuel; omega
-
-/-- **one iteration of the main loop never errs and keeps the invariant** -/
-theorem foldBody_ok (f : FS) (hf : FInv f) : ∃ st, foldBody f = .ok st ∧ StepOK f.s.input st := by
-  unfold foldBody
-  obtain ⟨f1, h1, hf1, hi1, _⟩ := foldSpecial_ok f hf
+/-- **`fold` is total**: from a state satisfying the scanner invariant whose window is empty beyond
+slot 0 (in particular the initial state) it returns a token count `≤ 7` -/
+theorem fold_ok (s : State) (hs : SInv s) (hz : ∀ j t, j ≠ 0 → s.tv[j]? = some t → t.cat = 0) :
+    ∃ n s', fold s = .ok (n, s') ∧ SInv s' ∧ s'.input = s.input ∧ n ≤ 7 ∧ (n ≠ 0 → XFin s') := by
+  unfold fold
+  obtain ⟨more, s1, h1, hs1, hi1, hc1, hpost⟩ := skipLoop_ok (s.input.length + 2) { s with cur := 0 }
+    ⟨hs.1, hs.2.1, hs.2.2⟩ rfl hz (by show s.input.length - s.pos + 1 < s.input.length + 2; omega)
   simp only [h1, bind, Except.bind, pure, Except.pure]
-  by_cases cb : (!f1.more || decide (f1.left ≥ maxTokens)) = true
-  · rw [if_pos cb]
-    exact ⟨_, rfl, ⟨hf1.1, Nat.le_refl _, hf1.2.2.1, hf1.2.2.2⟩, hi1⟩
-  rw [if_neg cb]
-  obtain ⟨f2, h2, hf2, hl2, hp2, hi2⟩ := fetch_ok 2 _ f1 hf1 (fetch_fuel_ok f1)
-  simp only [h2]
-  by_cases c2 : f2.pos - f2.left < 2
-  · rw [if_pos c2]
-    exact ⟨_, rfl, ⟨hf2.1, Nat.le_refl _, hf2.2.2.1, hf2.2.2.2⟩, by rw [← hi1, ← hi2]⟩
-  rw [if_neg c2]
-  obtain ⟨r, hr, hrok⟩ := foldTwo_ok f2 hf2 (by omega)
-  simp only [hr]
-  cases r with
-  | done st =>
-    simp only []
-    refine ⟨_, rfl, ?_⟩
-    have : f2.s.input = f.s.input := by rw [hi2, hi1]
-    rw [← this]; exact hrok
-  | next f3 =>
-    obtain ⟨hf3, hi3, hp3, hl3, hm3, hsp3⟩ := hrok
-    simp only []
-    obtain ⟨f4, h4, hf4, hl4, hp4, hi4⟩ := fetch_ok 3 _ f3 hf3 (fetch_fuel_ok f3)
-    simp only [h4]
-    have hin : f4.s.input = f.s.input := by rw [hi4, hi3, hi2, hi1]
-    by_cases c3 : f4.pos - f4.left < 3
-    · rw [if_pos c3]
-      exact ⟨_, rfl, ⟨hf4.1, Nat.le_refl _, hf4.2.2.1, hf4.2.2.2⟩, hin⟩
-    rw [if_neg c3]
-    obtain ⟨st, hst, hstok⟩ := foldThree_ok f4 hf4 (by omega)
-    exact ⟨st, hst, by rw [← hin]; exact hstok⟩
-
-end LibInj.Sqli
-
-namespace LibInj.Sqli
-open LibInj
-
-theorem maxTokens_eq : maxTokens = 5 := rfl
-
-/-- **the main loop of `fold`**: with any fuel it either runs out of fuel or returns a token count
-`≤ 5` with the scanner invariant intact — no index, slice or token-vector error is reachable. -/
-theorem foldLoop_ok (fuel : Nat) : ∀ (f : FS), FInv f →
-    (∃ n f', foldLoop f fuel = .ok (n, f') ∧ SInv f'.s ∧ f'.s.input = f.s.input ∧ n ≤ 7) ∨
-      foldLoop f fuel = .error .fuel := by
-  induction fuel with
-  | zero => intro f _; exact Or.inr rfl
-  | succ fuel ih =>
-    intro f hf
-    unfold foldLoop
-    obtain ⟨st, hst, hok⟩ := foldBody_ok f hf
-    simp only [hst, bind, Except.bind, pure, Except.pure]
-    cases st with
-    | cont f' =>
-      simp only []
-      rcases ih f' hok.1 with ⟨n, f'', h1, h2, h3, h4⟩ | h
-      · exact Or.inl ⟨n, f'', h1, h2, by rw [h3]; exact hok.2, h4⟩
-      · exact Or.inr h
-    | ret n f' =>
-      simp only []
-      exact Or.inl ⟨n, f', rfl, hok.1.1, hok.2.1, hok.2.2⟩
-    | brk f' =>
-      simp only []
-      obtain ⟨⟨hs, hlp, hp6, hlc⟩, hin⟩ := hok
-      left
-      by_cases ce : (decide (f'.left < maxTokens) && f'.lastComment.cat == 99) = true
-      · rw [if_pos ce]
-        have hl5 : f'.left < 5 := by simp only [Bool.and_eq_true, maxTokens_eq] at ce; exact of_decide_eq_true ce.1
-        obtain ⟨s', h1, h2, h3, _⟩ := tvSet_inv f'.s hs f'.left (by omega) f'.lastComment hlc
-        simp only [h1]
-        refine ⟨_, _, rfl, h2, by rw [← hin]; exact h3, ?_⟩
-        show (if f'.left + 1 > maxTokens then maxTokens else f'.left + 1) ≤ 7
-        rw [maxTokens_eq]; split <;> omega
-      · rw [if_neg ce]
-        refine ⟨_, _, rfl, hs, hin, ?_⟩
-        show (if f'.left > maxTokens then maxTokens else f'.left) ≤ 7
-        rw [maxTokens_eq]; split <;> omega
-
-end LibInj.Sqli
-
-namespace LibInj.Sqli
-open LibInj
-
-/-- one `tokenize` call from a state satisfying the scanner invariant -/
-theorem tokenize_sinv (s : State) (hs : SInv s) (hc : s.cur < 8) :
-    ∃ more s', tokenize s = .ok (more, s') ∧ SInv s' ∧ TokStep s more s' := by
-  have hcur : s.cur < s.tv.length := by rw [hs.1]; exact hc
-  obtain ⟨more, s', hr, hstep⟩ := tokenize_ok s hs.2.1 hcur
-  refine ⟨more, s', hr, ?_, hstep⟩
-  obtain ⟨q1, q2, q3, q4, q5, q6, q7, q8, q9, q10⟩ := hstep
-  refine ⟨by rw [q4]; exact hs.1, by rw [q1]; exact q6, ?_⟩
-  intro t ht
-  obtain ⟨j, hj, hjt⟩ := List.mem_iff_getElem.mp ht
-  have hget : s'.tv[j]? = some t := by rw [List.getElem?_eq_getElem hj, hjt]
-  by_cases hjc : j = s.cur
-  · rw [hjc] at hget
-    rcases q10 t hget with h | h
-    · exact h
-    · exact hs.2.2 t (List.mem_of_getElem? h)
-  · rw [q7 j hjc] at hget
-    exact hs.2.2 t (List.mem_of_getElem? hget)
-
-/-- the leading loop of `fold` is total and keeps the scanner invariant -/
-theorem skipLoop_ok (fuel : Nat) : ∀ (s : State), SInv s → s.cur = 0 → s.input.length - s.pos + 1 < fuel →
-    ∃ more s', skipLoop s fuel = .ok (more, s') ∧ SInv s' ∧ s'.input = s.input ∧ s'.cur = 0 := by
-  induction fuel with
-  | zero => intro s _ _ h; omega
-  | succ fuel ih =>
-    intro s hs hc hfu
-    unfold skipLoop
-    obtain ⟨more, s', hr, hs', q1, q2, q3, q4, q5, q6, q7, q8, q9, q10⟩ := tokenize_sinv s hs (by omega)
-    simp only [hr, bind, Except.bind, pure, Except.pure]
-    cases more with
-    | false =>
-      simp only [Bool.not_false, ↓reduceIte]
-      exact ⟨_, _, rfl, hs', q1, by rw [q3]; exact hc⟩
-    | true =>
-      simp only [Bool.not_true, Bool.false_eq_true, ↓reduceIte]
-      obtain ⟨t, ht, htf⟩ := tvGet_ok s' hs' s'.cur (by rw [q3]; omega)
-      obtain ⟨bu, hbu⟩ := isUnaryOp_ok t htf
-      simp only [ht, hbu, g, orM, toBool, bind, Except.bind, pure, Except.pure]
-      have hadv := (q8 rfl).1
-      have hnext : ∃ more s'', skipLoop s' fuel = .ok (more, s'') ∧ SInv s'' ∧ s''.input = s.input ∧ s''.cur = 0 := by
-        obtain ⟨m, s'', h1, h2, h3, h4⟩ := ih s' hs' (by rw [q3]; exact hc) (by rw [q1]; omega)
-        exact ⟨m, s'', h1, h2, by rw [h3]; exact q1, h4⟩
-      by_cases c1 : (t.cat == 99 || t.cat == 40 || t.cat == 116) = true
-      · simp only [c1, ↓reduceIte, Bool.not_true, Bool.false_eq_true]
-        exact hnext
-      · simp only [c1, Bool.false_eq_true, ↓reduceIte]
-        cases bu with
-        | true => simp only [Bool.not_true, Bool.false_eq_true, ↓reduceIte]; exact hnext
-        | false =>
-          simp only [Bool.not_false, ↓reduceIte]
-          exact ⟨_, _, rfl, hs', q1, by rw [q3]; exact hc⟩
+  cases more with
+  | false =>
+    simp only [Bool.not_false, ↓reduceIte]
+    exact ⟨_, _, rfl, hs1, hi1, by omega, fun h => absurd rfl h⟩
+  | true =>
+    simp only [Bool.not_true, Bool.false_eq_true, ↓reduceIte]
+    obtain ⟨p1, p2, p3⟩ := hpost rfl
+    have hf0 : FInv { s := s1, pos := 1, left := 0, more := true, lastComment := {} } :=
+      ⟨hs1, Nat.zero_le _, by show 1 ≤ 6; omega, tokF_default⟩
+    have hx0 : XInv { s := s1, pos := 1, left := 0, more := true, lastComment := {} } := by
+      have hnc : ¬ hasCom { s := s1, pos := 1, left := 0, more := true, lastComment := {} } := by
+        rintro ⟨u, hu, h99⟩
+        rcases hu with hu | hu
+        · exact p2 u hu h99
+        · rw [hu] at h99; exact absurd (show (({} : Token).cat = 99) from h99) (by decide)
+      exact ⟨p1, fun _ => hnc, fun _ t ht hn => ⟨p3 t ht hn, fun hc => absurd hc hnc⟩⟩
+    have hfuel : loopT { s := s1, pos := 1, left := 0, more := true, lastComment := {} } < foldFuel s1.input.length := by
+      have hm := mu_le { s := s1, pos := 1, left := 0, more := true, lastComment := {} } (by show 1 ≤ 6; omega)
+      unfold loopT bigM foldFuel
+      simp only [↓reduceIte]
+      have : (s1.input.length - s1.pos) * 1015 ≤ 1015 * s1.input.length := by
+        have : s1.input.length - s1.pos ≤ s1.input.length := Nat.sub_le _ _
+        omega
+      omega
+    obtain ⟨n, f', h2, h3, h4, h5, h6⟩ := foldLoop_ok (foldFuel s1.input.length) _ hf0 hfuel
+    simp only [h2]
+    exact ⟨_, _, rfl, h3, by rw [h4]; exact hi1, h5, fun _ => h6 hx0⟩
 
 end LibInj.Sqli
